@@ -140,6 +140,7 @@ pub struct WorkArgs {
     pub no_yield: bool,
     pub log_every: u64,
     pub tag: String,
+    pub hash_every: u64,
 }
 
 pub fn scenario_seed(verif_seed: u64, i: u64) -> u64 {
@@ -182,7 +183,7 @@ pub fn work_main(a: &WorkArgs) {
             out.nontrivial.push(sc.hash64() ^ r.sched_hash.rotate_left(1));
         }
         out.schedules.push(r.sched_hash);
-        if i % 16 == 0 {
+        if i % a.hash_every.max(1) == 0 {
             out.log_hashes.push((seed, r.log_hash ^ r.sched_hash.rotate_left(7)));
         }
         for s in &r.stats.states {
@@ -272,6 +273,8 @@ pub struct BatchArgs {
     pub determinism_sample: u64,
     pub tag: String,
     pub no_yield: bool,
+    /// record the event-log hash of every k-th scenario (16 normally, 1 for the determinism proof)
+    pub hash_every: u64,
 }
 
 #[derive(Clone, Debug, Default, Serialize, Deserialize)]
@@ -309,6 +312,8 @@ pub struct BatchOut {
     pub slots_warm_hit: u32,
     pub slots_never_cold: Vec<u32>,
     pub slots_never_warm: Vec<u32>,
+    /// (scenario seed, event-log hash) of every recorded scenario, sorted by seed
+    pub log_hashes: Vec<(u64, u64)>,
 }
 
 #[derive(Clone, Debug, Serialize, Deserialize)]
@@ -331,7 +336,8 @@ fn spawn_worker(b: &BatchArgs, pool_path: &str, refs_path: &str, from: u64, to: 
         .args(["--out", &format!("{}/work-{}.json", b.work_dir, tag)])
         .args(["--cand-dir", &b.work_dir])
         .args(["--known", &b.known_path])
-        .args(["--tag", tag]);
+        .args(["--tag", tag])
+        .args(["--hash-every", &b.hash_every.to_string()]);
     if no_yield {
         c.arg("--no-yield");
     }
@@ -499,10 +505,13 @@ pub fn batch_main(b: &BatchArgs) -> BatchOut {
             first_hashes.insert(*s, *h);
         }
     }
+    if b.hash_every == 1 {
+        out.log_hashes = first_hashes.iter().map(|(a, b)| (*a, *b)).collect();
+    }
     if b.determinism_sample > 0 && !b.no_yield {
         let n = b.determinism_sample.min(b.scenarios);
         // indices that are multiples of 16 within the first n*16 scenarios, split over 3 workers
-        let span = (n * 16).min(b.scenarios);
+        let span = (n * b.hash_every.max(1)).min(b.scenarios);
         let parts = 3u64;
         let per = (span + parts - 1) / parts;
         let mut chs = Vec::new();
